@@ -37,6 +37,9 @@ M = [
  ("m35-transfer-success-same-term", "leader.go", "		if l.term > l.transfer.term {\n			err = nil", "		if l.term >= l.transfer.term {\n			err = nil", "C16"),
  ("m36-transfer-target-lagging", "transfer.go", "			if repl.status.noContact.IsZero() && repl.status.matchIndex == l.lastLogIndex {\n				target = l.transfer.target", "			if repl.status.noContact.IsZero() {\n				target = l.transfer.target", "C16"),
  ("m37-never-lower-nextindex", "replication.go", "		r.nextIndex = min(r.nextIndex-1, resp.lastLogIndex+1)", "		r.nextIndex = r.nextIndex + 0", "C17"),
+ ("m44-no-commit-ready-guard", "changeconfig.go", "	if l.commitIndex < l.startIndex {\n		t.reply(ErrNotCommitReady)\n		return\n	}\n	if t.newConf.Index", "	if t.newConf.Index", "C08"),
+ ("m45-new-node-may-vote", "changeconfig.go", "			if n.Voter {\n				t.reply(fmt.Errorf(\"raft.changeConfig: new node %d must be nonvoter\", id))", "			if n.Voter && false {\n				t.reply(fmt.Errorf(\"raft.changeConfig: new node %d must be nonvoter\", id))", "C11"),
+ ("m49-publish-half-received-snapshot", "rpc.go", "	meta, doneErr := sink.done(err)\n	if err != nil {\n		return readErr, err\n	}", "	meta, doneErr := sink.done(nil)\n	if err != nil {\n		return readErr, err\n	}", "C09"),
  ("m38-swap-fields", "messages.go", "	if req.lastLogIndex, err = readUint64(r); err != nil {\n		return err\n	}\n	if req.lastLogTerm, err = readUint64(r); err != nil {", "	if req.lastLogTerm, err = readUint64(r); err != nil {\n		return err\n	}\n	if req.lastLogIndex, err = readUint64(r); err != nil {", "C18"),
  ("m40-commit-regress", "rpc.go", "		term == req.term && // don't commit any entry, until leader has committed an entry with his term\n		index > r.commitIndex // haven't we committed yet", "		term == req.term // don't commit any entry, until leader has committed an entry with his term", "C19"),
  ("m41-identity-and", "rpc.go", "		if r.cid != req.cid || r.nid != req.nid {", "		if r.cid != req.cid && r.nid != req.nid {", "C20"),
